@@ -587,7 +587,7 @@ func c03Recognisers(p *Prog, r *Report) {
 		entry := p.entryRels(fn)
 		p.instrs(fn, func(b *ssa.BasicBlock, i int, in ssa.Instruction) {
 			c, ok := in.(*ssa.Call)
-			if !ok || calleeName(c) != coqPkg+".MethodName" {
+			if !ok || !p.isMethodNameCall(c) {
 				return
 			}
 			n++
